@@ -165,6 +165,7 @@ class FlexiblePaxosNode(Entity):
 
     def _begin_phase1(self) -> list[Event]:
         self._current_ballot = Ballot(self._current_ballot.number + 1, self.name)
+        self._is_leader = False  # not leader under the new ballot until Phase 1 completes
         ballot = self._current_ballot
         self._phase1_responses[ballot.number] = [{"from": self.name}]
 
@@ -252,6 +253,8 @@ class FlexiblePaxosNode(Entity):
 
         if ballot_number not in self._phase1_responses:
             return []
+        if self._current_ballot != Ballot(ballot_number, self.name):
+            return []  # promise for a ballot we abandoned (we adopted a higher one since)
 
         self._phase1_responses[ballot_number].append(
             {
@@ -311,6 +314,8 @@ class FlexiblePaxosNode(Entity):
 
         self._current_ballot = ballot
         self._leader = ballot.node_id
+        if ballot.node_id != self.name:
+            self._is_leader = False
 
         if slot > self._log.last_index:
             self._log.append(ballot.number, command)
